@@ -452,7 +452,7 @@ func mkDNSReq(q Q) *urlfilter.DNSRequest {
 	return dr
 }
 
-var urlTails = []string{"", "/", "/ads/x.js", ":8080/example?google", "/AB", "/ads/", "/path?q=example.org", "/a.com", "/ads^x", "/banner7.gif", "/BANNER7"}
+var urlTails = []string{"", "/", "/ads/x.js", ":8080/example?google", "/AB", "/ads/", "/path?q=example.org", "/a.com", "/ads^x", "/banner7.gif", "/BANNER7", "/Äpfel/x", "/q/РЕКЛАМА.gif", "/price$list", "/price\\$list?cost\\$", "/cost$"}
 
 // genClientFields fills the client part of a request, steered towards the
 // rule's own values and near misses when a model is given.
